@@ -69,9 +69,9 @@ CLAIMED["C02"] = dict(
 CLAIMED["C07"] = dict(
     text="Theorems (coq/Properties/C07.v) on the model of kmer_heuristic.py + KmerFinder.kmers_present (window arithmetic + windowed multi-pattern occurrence) + the finder each adapter class builds: "
     "the prefilter can only reject, so the property is equivalent to 'reported match implies prefilter passes'; comparers bypass it; the k-mer chunks partition the adapter prefix into max_errors+1 pieces; "
-    "short reads always reach the aligner of an anywhere adapter. PARTIAL: completeness of the search tables (pigeonhole over edit scripts) is not a theorem; it rests on the correspondence "
+    "short reads always reach the aligner of an anywhere adapter; completeness of the search tables for matches that cover the whole adapter (C07_whole_adapter_never_rejected: Front, RightmostFront, Back, Anywhere adapters, any error rate below 1, ASCII reads: pigeonhole over the edit script given by C01's distance theorem leaves one of the max_errors+1 chunks verbatim in the read, the chunk is kept by minimize with window (0, None), and the aligner's character comparison implies the k-mer finder's for every pair of ASCII characters and every wildcard flag set, by computation). PARTIAL: completeness for matches covering only a prefix/suffix of the adapter (back/front overlap search sets and their windows) and for the non-internal classes is not a theorem; it rests on the correspondence "
     "(search tables as sets, kmers_present, prefiltered match_to: model = implementation) and on the with/without-prefilter oracle run on the implementation (random + exhaustive small scope).",
-    technique="Coq proof (structural lemmas) + extracted-model differential correspondence (tables, kmers_present, match_to) + real-vs-mock-finder oracle on the implementation",
+    technique="Coq proof (structural lemmas; pigeonhole completeness for whole-adapter matches) + extracted-model differential correspondence (tables, kmers_present, match_to) + real-vs-mock-finder oracle on the implementation",
     design="6/C07",
     note=TB + " The shift-and bit machinery of _kmer_finder.pyx below 'windowed multi-pattern occurrence' is not modelled; windows extending past the read end (out-of-bounds read in the compiled code, "
     "can only turn no into yes) are clamped in the model and excluded from the kmers_present comparison. Two genuine defects were repaired in /repo (fix: commits 68eb3cf, 579ddcc).",
